@@ -285,6 +285,14 @@ func (s *Schema) control() (err error) {
 		return fmt.Errorf("%T %w: %s", s.object, ErrStructureChanged, err)
 	}
 
+	// control that every index is the one of the field it is stored under
+	for fn, fi := range s.ObjectIndex.Fields {
+		fd := s.Fields[fn]
+		if cast, ok := fd.castOk(); !ok || cast != fi.Cast || fi.Name != fn {
+			return fmt.Errorf("%w: index of field %s does not match field descriptor", ErrMalformedIndex, fn)
+		}
+	}
+
 	// controlling index in memory
 	if err = s.ObjectIndex.control(); err != nil {
 		return
